@@ -242,7 +242,12 @@ static void lr_toggle_logged(struct left_right* self) {
   lr_toggle_version_and_wait(self);
   tog_exit_clk = ++xv_clock;
 }
-#define LR_TOGGLE(self) lr_toggle_logged(self)
+int xv_toggle_arg0, xv_toggle_arg1;       /* parameters a maintainer may have given toggle_version_and_wait (see unit.py) */
+#define XV_TOG_PICK(_0, _1, _2, N, ...) N
+#define LR_TOGGLE(...) XV_TOG_PICK(__VA_ARGS__, LR_TOGGLE2, LR_TOGGLE1, LR_TOGGLE0)(__VA_ARGS__)
+#define LR_TOGGLE0(self) lr_toggle_logged(self)
+#define LR_TOGGLE1(self, a) (xv_toggle_arg0 = (a), lr_toggle_logged(self))
+#define LR_TOGGLE2(self, a, b) (xv_toggle_arg0 = (a), xv_toggle_arg1 = (b), lr_toggle_logged(self))
 
 /* loop cut of wait_for_readers' spin loop: the body is empty after dropping yield(); what changes between iterations
  * is the environment (called inside the condition's atomic accesses).  In terms of reader states and occupancy the environment
